@@ -43,6 +43,7 @@ var (
 	harness  = flag.String("harness", "", "comma separated pkgpath=dir: harness files to overlay into the package")
 	hideTest = flag.Bool("hidetests", true, "hide the packages' own _test.go files")
 	extraOv  = flag.String("overlay-extra", "", "comma separated dst=src extra overlay entries")
+	derive   = flag.Bool("derive-startsim", false, "derive (*Server).startSim from the repository's Server.Start (package server)")
 )
 
 func die(format string, a ...any) {
@@ -88,6 +89,21 @@ func main() {
 	}
 	if *modfile != "" {
 		cfg.BuildFlags = []string{"-modfile=" + *modfile}
+	}
+	genName := ""
+	if *derive {
+		name, src, err := deriveStartSim(*repo)
+		if err != nil {
+			die("%v", err)
+		}
+		genName = name
+		cfg.Overlay = map[string][]byte{name: src}
+		if err := os.MkdirAll(filepath.Join(*outDir, "src", "server"), 0o755); err != nil {
+			die("%v", err)
+		}
+		if err := os.WriteFile(filepath.Join(*outDir, "src", "server", "zz_verif_startsim_gen.raw.go.txt"), src, 0o644); err != nil {
+			die("%v", err)
+		}
 	}
 	loaded, err := packages.Load(cfg, pkgs...)
 	if err != nil {
@@ -139,6 +155,11 @@ func main() {
 					overlay[filepath.Join(dir, e.Name())] = ""
 				}
 			}
+		}
+	}
+	if genName != "" {
+		if _, ok := overlay[genName]; !ok {
+			die("derived start-up file %s was not instrumented (not part of the loaded package?)", genName)
 		}
 	}
 	// harness files
